@@ -631,6 +631,59 @@ pub fn writers(a: &Args, o: &mut Obs) {
     o.add("put_methods", nrows as u64 + 3);
 }
 
+/// Putter table (C11; the counterpart of the getter table): every put_X row x nbytes 0..=9 x value pattern x a fixed
+/// set of targets whose leaf boundary falls before / inside / after the value x call path. `run_case` checks the
+/// contents against the reference encoding, the cursor, the guards, the nbytes > 8 rejection and the read-back.
+/// Small enough to be interpreted completely for big-endian and 32-bit targets under Miri.
+pub fn putters(a: &Args, o: &mut Obs) {
+    let shard = a.usize("shard", 0);
+    let nshards = a.usize("nshards", 1).max(1);
+    let rows = prows();
+    let values: [u128; 6] = [0, !0u128, 1u128 << 127, 0x0102_0304_0506_0708_090a_0b0c_0d0e_0f10, 0x80, 0x7fff_ffff_ffff_ffff_ffff_ffff_ffff_ff7f];
+    let mut idx = 0usize;
+    let only_ne = a.flag("only-ne");
+    for (ri, row) in rows.iter().enumerate() {
+        if only_ne && row.end != End::Ne {
+            continue;
+        }
+        let nbs: Vec<usize> = if row.width == 0 { (0..=9).collect() } else { vec![0] };
+        for &nb in &nbs {
+            let w = if row.width == 0 { nb.min(8) } else { row.width };
+            for (vi, &v) in values.iter().enumerate() {
+                idx += 1;
+                if idx % nshards != shard {
+                    continue;
+                }
+                let case = format!("tbl:put:{}:{nb}:{vi}", row.name);
+                crate::out::journal(&case);
+                let targets: Vec<WSpec> = vec![
+                    WSpec::Vec(1, 0),
+                    WSpec::BM((ri + vi) % 7, 2, 0),
+                    WSpec::Slice(w + 3),
+                    WSpec::Uninit(w + 1),
+                    // a leaf boundary inside the value (and exactly in front of / behind it)
+                    WSpec::Chain(Box::new(WSpec::Slice(1 + w / 2)), Box::new(WSpec::Uninit(w + 2))),
+                    WSpec::Chain(Box::new(WSpec::Slice(1)), Box::new(WSpec::Slice(w + 1))),
+                    WSpec::Chain(Box::new(WSpec::Uninit(1 + w)), Box::new(WSpec::Vec(0, 0))),
+                    WSpec::Limit(w + 2, vi % 2 == 0, Box::new(WSpec::Vec(0, 3))),
+                    // does not fit by one byte: must panic
+                    WSpec::Slice(w),
+                ];
+                for (ti, spec) in targets.iter().enumerate() {
+                    let path = (ti + vi + nb) % 3;
+                    // one byte first, so that the value does not start at the beginning of the target
+                    let ops = [WOp::PutSlice(1), WOp::Typed(ri, v, nb), WOp::Check];
+                    run_case(o, spec, &ops, path, None, &case);
+                    o.inc("putter_rows");
+                    o.cell(format!("put|{}|w{w}|t{ti}|{}", row.name, PATHS[path]));
+                }
+            }
+        }
+    }
+    o.add("put_methods", rows.len() as u64);
+    o.sample("row put_int_ne nbytes=3 value 0x80: targets Vec, BytesMut (7 kinds), &mut [u8], &mut [MaybeUninit<u8>], Chain with the leaf boundary inside / before / behind the value, Limit(Vec), and a slice one byte too short (must panic); through dyn, &mut T, Box<T>; contents vs reference encoding, read back with get_int_ne".to_string());
+}
+
 /// how `n` appended bytes must be distributed over the leaves, in order
 pub fn distribute(spec: &WSpec, n: usize, out: &mut Vec<usize>) -> usize {
     match spec {
